@@ -478,6 +478,12 @@ Ltac simp_rec := unfold consumed, lastp in *;
 Ltac fail_show := match goal with |- ?g => idtac "OPEN:" g end.
 Ltac splits := repeat match goal with |- _ /\ _ => split end.
 
+Lemma free_live e s o : free_obj e s = Some o -> live_obj e s = Some o.
+Proof. unfold free_obj. destruct (live_obj e s) as [o'|]; [|discriminate]. destruct (s_blk o'); [discriminate|]. trivial. Qed.
+
+Lemma with_pq_same e : with_pq e (pq e) = e.
+Proof. destruct e; reflexivity. Qed.
+
 Lemma R_viol e m : good_b m = true -> R e (set_viol m).
 Proof. intros G. split; [exact G|left; reflexivity]. Qed.
 
@@ -523,8 +529,9 @@ Lemma step_ready e m s : good_b m = true -> m_viol m = false -> Inv e m ->
   R (fst (step e (OReady s))) (mon_step m (OReady s) (snd (step e (OReady s)))).
 Proof.
   intros G V I. unfold step, step_gen, mon_step. rewrite V.
-  destruct (live_obj e s) as [o|] eqn:L; cbn [fst snd o_st rejected ok3 Z.eqb negb o_a o_b].
+  destruct (free_obj e s) as [o|] eqn:F; cbn [fst snd o_st rejected ok3 Z.eqb negb o_a o_b].
   2:{ apply R_same; assumption. }
+  pose proof (free_live _ _ _ F) as L.
   destruct (inv_rec _ _ _ _ I L) as (r & Gr & LV). rewrite Gr, LV. cbn [negb orb].
   destruct (idle_pc (m_pc r)) eqn:IP; cbn [negb orb]; [|apply R_viol; exact G].
   destruct (HALF <=? pos_of (fst (advance_lk (pq e) (s_h o) (s_mode o))) (s_h o)) eqn:HB; [apply R_viol; exact G|].
@@ -606,8 +613,9 @@ Lemma step_suspend e m s : good_b m = true -> m_viol m = false -> Inv e m ->
   R (fst (step e (OSuspend s))) (mon_step m (OSuspend s) (snd (step e (OSuspend s)))).
 Proof.
   intros G V I. unfold step, step_gen, mon_step. rewrite V.
-  destruct (live_obj e s) as [o|] eqn:L; cbn [fst snd o_st rejected ok3 Z.eqb negb o_a o_b o_c].
+  destruct (free_obj e s) as [o|] eqn:F; cbn [fst snd o_st rejected ok3 Z.eqb negb o_a o_b o_c].
   2:{ apply R_same; assumption. }
+  pose proof (free_live _ _ _ F) as L.
   destruct (inv_rec _ _ _ _ I L) as (r & Gr & LV). rewrite Gr.
   destruct (m_pc r) eqn:PC; try (apply R_viol; exact G).
   rewrite LV. cbn [negb orb].
@@ -680,26 +688,10 @@ Proof.
 Qed.
 
 (* ---- get_value_lk ---- *)
-Lemma In_firstn_skipn (l : list Z) : forall (a b j : nat), (a <= j)%nat -> (j < a + b)%nat -> (j < length l)%nat ->
-  In (nth j l 0) (firstn b (skipn a l)).
-Proof.
-  induction l as [|x l IH]; intros a b j A B L; [cbn in L; lia|].
-  destruct a as [|a].
-  - cbn [skipn]. destruct b as [|b]; [lia|]. destruct j as [|j]; [left; reflexivity|].
-    cbn [firstn nth]. right. apply (IH 0%nat b j); cbn in *; lia.
-  - destruct j as [|j]; [lia|]. cbn [skipn nth]. apply IH; cbn in *; lia.
-Qed.
-
-Lemma memz_nth_range lg a b j : 0 <= a <= j -> j < a + b -> j < zlen lg ->
-  memz (nthz lg j) (firstn (Z.to_nat b) (skipn (Z.to_nat a) lg)) = true.
-Proof.
-  intros A B L. apply memz_In. unfold nthz. apply In_firstn_skipn; unfold zlen in L; lia.
-Qed.
-
 Lemma qidx_val lg qd i v : win lg qd -> qidx qd i = GVal v -> 0 <= i < zlen qd /\ v = nthz lg (zlen lg - 1 - i).
 Proof.
   intros WN. unfold qidx. destruct ((0 <=? i) && (i <? zlen qd)) eqn:E; [|discriminate].
-  assert (R : 0 <= i < zlen qd) by lia. rewrite (win_nth _ _ _ WN R). intros H. injection H as <-. split; [exact R|reflexivity].
+  assert (RR : 0 <= i < zlen qd) by lia. rewrite (win_nth _ _ _ WN RR). intros H. injection H as <-. split; [exact RR|reflexivity].
 Qed.
 
 Lemma qidx_not_eos qd i : qidx qd i <> GEos.
@@ -724,148 +716,192 @@ Lemma contig_b_cons start lg p v k d :
   ((p =? start + zlen ((p, v, k) :: d)) && (1 <=? p) && (p <=? zlen lg) && (v =? nthz lg (p - 1)) && contig_b start lg d).
 Proof. reflexivity. Qed.
 
+(* what get_value_lk does, for a registration whose position is in range *)
+Inductive gv_spec (q : pubq) (h : nat) (t : Z) : pubq * gres -> Prop :=
+| gv_eos_end : r_kicked (rget (regs q) h) = true \/ qpos q <= r_pos (rget (regs q) h) -> gv_spec q h t (q, GEos)
+| gv_eos_gap : r_kicked (rget (regs q) h) = false -> r_pos (rget (regs q) h) < qpos q -> t = 0 ->
+               zlen (qd q) <= qpos q - r_pos (rget (regs q) h) - 1 -> gv_spec q h t (q, GEos)
+| gv_ub : gv_spec q h t (q, GUb)
+| gv_val_same v : r_kicked (rget (regs q) h) = false -> r_pos (rget (regs q) h) < qpos q -> (t = 0 \/ t = 1) ->
+               qpos q - r_pos (rget (regs q) h) - 1 < zlen (qd q) ->
+               qidx (qd q) (qpos q - r_pos (rget (regs q) h) - 1) = GVal v -> gv_spec q h t (q, GVal v)
+| gv_val_move v np i : r_kicked (rget (regs q) h) = false -> r_pos (rget (regs q) h) < qpos q ->
+               (t = 1 /\ zlen (qd q) <= qpos q - r_pos (rget (regs q) h) - 1 /\ i = zlen (qd q) - 1 \/ t = 2 /\ i = 0) ->
+               np = qpos q - i - 1 -> qidx (qd q) i = GVal v ->
+               gv_spec q h t (set_reg q h (with_pos (rget (regs q) h) np), GVal v).
+
+Lemma get_value_spec q h t : (t = 0 \/ t = 1 \/ t = 2) -> 0 <= r_pos (rget (regs q) h) < HALF -> 1 <= qpos q < HALF ->
+  zlen (qd q) < HALF -> gv_spec q h t (get_value_lk q h t).
+Proof.
+  intros T RG QP QL. unfold get_value_lk. set (l := rget (regs q) h) in *.
+  assert (HW : HALF < W) by reflexivity. pose proof (zlen_nonneg (qd q)) as QN.
+  destruct (r_kicked l || (qpos q <=? r_pos l)) eqn:GD.
+  { apply gv_eos_end. fold l. apply orb_prop in GD as [K|K]; [left; exact K|right; lia]. }
+  apply orb_false_elim in GD as (K & PE).
+  assert (RP : wrap (qpos q - r_pos l - 1) = qpos q - r_pos l - 1) by (apply wrap_small; lia).
+  rewrite RP.
+  destruct T as [ -> | [ -> | -> ] ]; cbn [Z.eqb].
+  - destruct (zlen (qd q) <=? qpos q - r_pos l - 1) eqn:C.
+    + apply gv_eos_gap; fold l; try assumption; try reflexivity; lia.
+    + destruct (qidx (qd q) (qpos q - r_pos l - 1)) eqn:QI.
+      * apply gv_val_same; fold l; try assumption; try lia; left; reflexivity.
+      * exfalso. eapply qidx_not_eos. exact QI.
+      * apply gv_ub.
+  - destruct (zlen (qd q) <=? qpos q - r_pos l - 1) eqn:C.
+    + destruct (qidx (qd q) (wrap (zlen (qd q) - 1))) eqn:QI.
+      * assert (Z1 : 1 <= zlen (qd q)).
+        { unfold qidx in QI. destruct ((0 <=? wrap (zlen (qd q) - 1)) && (wrap (zlen (qd q) - 1) <? zlen (qd q))) eqn:RR; [|discriminate].
+          destruct (Z_lt_ge_dec (zlen (qd q) - 1) 0) as [N|N]; [|lia]. rewrite wrap_neg in RR by lia. lia. }
+        rewrite (wrap_small (zlen (qd q) - 1)) in * by lia.
+        rewrite (wrap_small (qpos q - (zlen (qd q) - 1) - 1)) by lia.
+        apply (gv_val_move q h 1 v _ (zlen (qd q) - 1)); fold l; try assumption; try lia;
+        left; repeat split; lia.
+      * exfalso. eapply qidx_not_eos. exact QI.
+      * apply gv_ub.
+    + destruct (qidx (qd q) (qpos q - r_pos l - 1)) eqn:QI.
+      * apply gv_val_same; fold l; try assumption; try lia; right; reflexivity.
+      * exfalso. eapply qidx_not_eos. exact QI.
+      * apply gv_ub.
+  - destruct (qidx (qd q) 0) eqn:QI.
+    + rewrite (wrap_small (qpos q - 1)) by lia.
+      apply (gv_val_move q h 2 v _ 0); fold l; try assumption; try lia; right; split; reflexivity.
+    + exfalso. eapply qidx_not_eos. exact QI.
+    + apply gv_ub.
+Qed.
+
+Lemma incr_b_cons start p v k d : incr_b start ((p, v, k) :: d) = ((last_pos start d <? p) && incr_b start d).
+Proof. reflexivity. Qed.
+
 Lemma step_get e m s : good_b m = true -> m_viol m = false -> Inv e m ->
   R (fst (step e (OGet s))) (mon_step m (OGet s) (snd (step e (OGet s)))).
 Proof.
   intros G V I. unfold step, step_gen.
-  destruct (live_obj e s) as [o|] eqn:L.
+  destruct (free_obj e s) as [o|] eqn:F.
   2:{ unfold mon_step. rewrite V. cbn. apply R_same; assumption. }
+  pose proof (free_live _ _ _ F) as L.
   destruct (inv_rec _ _ _ _ I L) as (r & Gr & LV).
   pose proof (i_sub _ _ I s o r L Gr) as (U & SB & MD & VM & KK & CU & RG & AW & PO).
+  assert (HL : (s_h o < length (regs (pq e)))%nat) by (apply rget_used_lt; exact U).
   pose proof (good_rec _ _ _ G Gr) as GR. unfold rec_good_b in GR.
   pose proof (i_g _ _ I) as [G1 G2 G3 G4 G5 G6]. fold (npub m) in *.
   pose proof (win_len _ _ G5) as WL. fold (npub m) in WL.
   pose proof (zlen_nonneg (qd (pq e))) as QN. pose proof (zlen_nonneg (m_deliv r)) as DN.
+  pose proof (zlen_nonneg (m_log m)) as LN. fold (npub m) in LN.
   assert (HW : HALF < W) by reflexivity.
-  unfold pos_of. set (l := rget (regs (pq e)) (s_h o)) in *.
-  destruct (get_value_lk (pq e) (s_h o) (s_mode o)) as [v| |] eqn:GV; cbn [fst snd]; unfold mon_step; rewrite V;
+  pose proof (get_value_spec (pq e) (s_h o) (s_mode o) (valid_mode_cases _ VM) RG ltac:(lia) ltac:(lia)) as SP.
+  set (l := rget (regs (pq e)) (s_h o)) in *.
+  destruct SP as [HE | K PL T0 GAP | | v K PL T QL QI | v np i K PL TI NP QI];
+    repeat match goal with H : context[rget (regs (pq e)) (s_h o)] |- _ => progress fold l in H end; fold l; cbn [fst snd];
+    rewrite ?with_pq_same; unfold mon_step; rewrite V;
     cbn [o_st ok3 ub_obs Z.eqb negb o_a o_b o_c]; try (apply R_viol; exact G);
-    rewrite Gr; destruct (m_pc r) eqn:PC; try (apply R_viol; exact G); rewrite LV; cbn [negb];
+    rewrite Gr; destruct (m_pc r) eqn:PC; try (apply R_viol; exact G); rewrite LV; cbn [negb]; cbn [awt_pc] in AW.
+  - (* end of stream: kicked, or at/behind the end *)
     destruct (m_eos r) eqn:EO.
-  - (* value after an end of stream: not recorded *)
-    split.
-    + apply good_set_sub; [exact G|]. unfold with_pc. unfold rec_good_b in *; cbn [m_mode m_start m_deliv m_eos m_eos_ok m_lost] in *. rewrite ?EO. exact GR.
-    + right. apply (local_same e m s o r); try assumption. fold l.
-      unfold sub_ok. splits; simp_rec; try assumption; try reflexivity; try lia.
-      intros; congruence.
-  - (* a value is delivered *)
-    specialize (PO eq_refl). unfold get_value_lk in GV. fold l in GV.
-    destruct (r_kicked l || (r_pos l =? qpos (pq e))) eqn:KE; [discriminate|].
-    apply orb_false_elim in KE as (K & PE). rewrite <- KK, K. cbn [orb].
-    rewrite G3 in *.
-    destruct PO as (ST & M0 & M12). rewrite PC in *. rewrite <- KK in *. rewrite MD in *. simp_rec.
-    destruct (valid_mode_cases _ VM) as [T|[T|T]]; rewrite T in *; cbn [Z.eqb] in GV.
-    + (* all_values *)
-      specialize (M0 eq_refl). destruct M0 as (A1 & A2 & A3 & A4). specialize (A3 eq_refl K).
-      destruct (zlen (qd (pq e)) <=? wrap (npub m + 1 - r_pos l - 1)) eqn:RP; [discriminate|].
-      assert (RP2 : wrap (npub m + 1 - r_pos l - 1) = npub m - r_pos l).
-      { destruct (Z_lt_ge_dec (npub m + 1 - r_pos l - 1) 0) as [N|N].
-        - rewrite wrap_neg in RP by lia. lia.
-        - rewrite wrap_small by lia. lia. }
-      rewrite RP2 in *.
-      apply (qidx_val _ _ _ _ G5) in GV as (IR & VE). fold (npub m) in VE.
-      split.
-      * apply good_add_bad. apply good_set_sub; [exact G|].
-        unfold rec_good_b in *; cbn [m_mode m_start m_deliv m_eos m_eos_ok m_lost] in *. try rewrite T in *. cbn [Z.eqb] in *.
-        rewrite contig_b_cons. rewrite zlen_cons. fold (npub m).
-        apply andb_prop in GR as (GR1 & GR2). rewrite GR1. cbn [negb orb andb]. rewrite andb_true_r.
-        replace (npub m - 1 - (npub m - r_pos l)) with (r_pos l - 1) in VE by lia. lia.
-      * right. unfold add_bad. cbn [orb]. rewrite orb_false_r.
-        replace (mkM (m_log (set_sub m s _)) _ _ _ _ _ _) with
-          (set_sub m s (mkSr true 0 PIdle (m_start r) (m_cur r) ((r_pos l, v, npub m) :: m_deliv r) false (m_eos_ok r) false (m_lost r)))
-          by (unfold set_sub; cbn; reflexivity).
-        apply (local_same e m s o r); try assumption; try reflexivity. fold l.
-        unfold sub_ok. splits; simp_rec; try assumption; try reflexivity; try lia.
-        intros _. unfold pos_ok. simp_rec. rewrite zlen_cons.
-        clear - ST A3 A4 IR G4. intuition (try discriminate; try congruence; try lia).
-    + (* skip_if_behind *)
-      specialize (M12 ltac:(lia)). destruct M12 as (B1 & B2 & B3 & B4). specialize (B3 eq_refl K).
-      apply (qidx_val _ _ _ _ G5) in GV as (IR & VE). fold (npub m) in VE.
-      split.
-      * apply good_add_bad. apply good_set_sub; [exact G|].
-        unfold rec_good_b in *; cbn [m_mode m_start m_deliv m_eos m_eos_ok m_lost] in *. try rewrite T in *. cbn [Z.eqb] in *.
-        apply andb_prop in GR as (GR1 & GR2). apply andb_prop in GR1 as (GR3 & GR4).
-        cbn [incr_b forallb negb orb]. rewrite GR3. rewrite andb_true_r.
-        apply andb_true_intro. split; [lia|].
-        destruct (m_lost r) eqn:LS; [reflexivity|]. cbn [orb] in *. rewrite GR4. rewrite andb_true_r.
-        specialize (B4 eq_refl). destruct B4 as (C1 & C2 & C3).
-        unfold skipval_b. cbn [Z.eqb].
-        assert (PL : r_pos l <= npub m) by lia.
-        assert (RP2 : wrap (npub m + 1 - r_pos l - 1) = npub m - r_pos l) by (apply wrap_small; lia).
-        rewrite RP2 in IR, VE.
-        assert (ME : memz v (firstn (Z.to_nat (npub m - r_pos l + 1)) (skipn (Z.to_nat (r_pos l - 1)) (m_log m))) = true).
-        { rewrite VE. apply memz_nth_range; fold (npub m).
-          - destruct (zlen (qd (pq e)) <=? npub m - r_pos l) eqn:CC.
-            + rewrite wrap_small in * by lia. lia.
-            + lia.
-          - destruct (zlen (qd (pq e)) <=? npub m - r_pos l) eqn:CC.
-            + rewrite wrap_small in * by lia. lia.
-            + lia.
-          - lia. }
-        rewrite ME. fold (npub m). lia.
-      * right. unfold add_bad. cbn [orb]. rewrite orb_false_r.
-        replace (mkM (m_log (set_sub m s _)) _ _ _ _ _ _) with
-          (set_sub m s (mkSr true 1 PIdle (m_start r) (m_cur r) ((r_pos l, v, npub m) :: m_deliv r) false (m_eos_ok r) false (m_lost r)))
-          by (unfold set_sub; cbn; reflexivity).
-        apply (local_same e m s o r); try assumption; try reflexivity. fold l.
-        unfold sub_ok. splits; simp_rec; try assumption; try reflexivity; try lia.
-        intros _. unfold pos_ok. simp_rec. cbn [last_pos].
-        clear - ST B1 B3 B4 PE G4. intuition (try discriminate; try congruence; try lia).
-    + (* skip_to_recent *)
-      specialize (M12 ltac:(lia)). destruct M12 as (B1 & B2 & B3 & B4). specialize (B3 eq_refl K).
-      apply (qidx_val _ _ _ _ G5) in GV as (IR & VE). fold (npub m) in VE.
-      split.
-      * apply good_add_bad. apply good_set_sub; [exact G|].
-        unfold rec_good_b in *; cbn [m_mode m_start m_deliv m_eos m_eos_ok m_lost] in *. try rewrite T in *. cbn [Z.eqb] in *.
-        apply andb_prop in GR as (GR1 & GR2). apply andb_prop in GR1 as (GR3 & GR4).
-        cbn [incr_b forallb negb orb]. rewrite GR3. rewrite andb_true_r.
-        apply andb_true_intro. split; [lia|].
-        destruct (m_lost r) eqn:LS; [reflexivity|]. cbn [orb] in *. rewrite GR4. rewrite andb_true_r.
-        specialize (B4 eq_refl). destruct B4 as (C1 & C2 & C3).
-        unfold skipval_b. cbn [Z.eqb]. fold (npub m).
-        replace (npub m - 1 - 0) with (npub m - 1) in VE by lia. lia.
-      * right. unfold add_bad. cbn [orb]. rewrite orb_false_r.
-        replace (mkM (m_log (set_sub m s _)) _ _ _ _ _ _) with
-          (set_sub m s (mkSr true 2 PIdle (m_start r) (m_cur r) ((r_pos l, v, npub m) :: m_deliv r) false (m_eos_ok r) false (m_lost r)))
-          by (unfold set_sub; cbn; reflexivity).
-        apply (local_same e m s o r); try assumption; try reflexivity. fold l.
-        unfold sub_ok. splits; simp_rec; try assumption; try reflexivity; try lia.
-        intros _. unfold pos_ok. simp_rec. cbn [last_pos].
-        clear - ST B1 B3 B4 PE G4. intuition (try discriminate; try congruence; try lia).
-  - (* end of stream after an end of stream *)
-    split.
-    + apply good_set_sub; [exact G|]. unfold with_pc. unfold rec_good_b in *; cbn [m_mode m_start m_deliv m_eos m_eos_ok m_lost] in *. rewrite ?EO. exact GR.
-    + right. apply (local_same e m s o r); try assumption. fold l.
-      unfold sub_ok. splits; simp_rec; try assumption; try reflexivity; try lia.
-      intros; congruence.
-  - (* first end of stream: it must be legitimate *)
-    specialize (PO eq_refl). unfold get_value_lk in GV. fold l in GV. rewrite G3 in *.
-    destruct PO as (ST & M0 & M12). rewrite PC in *. rewrite <- KK in *. rewrite MD in *. simp_rec.
+    { split.
+      + apply good_set_sub; [exact G|]. unfold with_pc, rec_good_b. cbn [m_mode m_start m_deliv m_eos m_eos_ok m_lost]. rewrite EO. exact GR.
+      + right. apply (local_same e m s o r); try assumption. fold l.
+        unfold sub_ok. splits; simp_rec; try assumption; try reflexivity; try lia. all: intros; try discriminate; try congruence. }
+    specialize (PO eq_refl). destruct PO as (ST & M0 & M12). rewrite PC in *. rewrite <- KK in *. rewrite MD in *. simp_rec.
     assert (EOK : r_kicked l || m_lost r ||
                   (m_closed m && (if s_mode o =? 0 then m_start r + zlen (m_deliv r) =? npub m else m_cur r =? npub m + 1)) = true).
     { destruct (r_kicked l) eqn:K; [reflexivity|]. destruct (m_lost r) eqn:LS; [reflexivity|]. cbn [orb] in *.
-      rewrite <- (i_cl _ _ I). rewrite CU.
-      destruct (r_pos l =? npub m + 1) eqn:PE.
-      - destruct (valid_mode_cases _ VM) as [T|[T|T]]; rewrite T in *; cbn [Z.eqb].
-        + specialize (M0 eq_refl). destruct M0 as (A1 & A2 & A3 & A4). specialize (A3 eq_refl K).
-          specialize (A4 eq_refl). destruct A4 as (D1 & D2 & D3 & D4). rewrite D4; [lia|reflexivity|exact K|lia].
-        + specialize (M12 ltac:(lia)). destruct M12 as (B1 & B2 & B3 & B4). specialize (B4 eq_refl).
-          destruct B4 as (C1 & C2 & C3). rewrite C3; [lia|reflexivity|exact K|lia].
-        + specialize (M12 ltac:(lia)). destruct M12 as (B1 & B2 & B3 & B4). specialize (B4 eq_refl).
-          destruct B4 as (C1 & C2 & C3). rewrite C3; [lia|reflexivity|exact K|lia].
-      - exfalso. destruct (valid_mode_cases _ VM) as [T|[T|T]]; rewrite T in *; cbn [Z.eqb] in GV.
-        + specialize (M0 eq_refl). destruct M0 as (A1 & A2 & A3 & A4). specialize (A3 eq_refl K).
-          specialize (A4 eq_refl). destruct A4 as (D1 & D2 & D3 & D4).
-          destruct (zlen (qd (pq e)) <=? wrap (npub m + 1 - r_pos l - 1)) eqn:RP.
-          * rewrite wrap_small in RP by lia. lia.
-          * eapply qidx_not_eos. exact GV.
-        + eapply qidx_not_eos. exact GV.
-        + eapply qidx_not_eos. exact GV. }
+      rewrite <- (i_cl _ _ I). rewrite CU. destruct HE as [HE|HE]; [congruence|]. rewrite G3 in HE.
+      destruct (valid_mode_cases _ VM) as [T|[T|T]]; rewrite T in *; cbn [Z.eqb].
+      - specialize (M0 eq_refl). destruct M0 as (A1 & A2 & A3 & A4). specialize (A3 eq_refl eq_refl).
+        specialize (A4 eq_refl). destruct A4 as (D1 & D2 & D3 & D4). rewrite D4; [lia|reflexivity|reflexivity|lia].
+      - specialize (M12 ltac:(lia)). destruct M12 as (B1 & B2 & B3 & B4). specialize (B4 eq_refl).
+        destruct B4 as (C1 & C2 & C3). rewrite C3; [lia|reflexivity|reflexivity|lia].
+      - specialize (M12 ltac:(lia)). destruct M12 as (B1 & B2 & B3 & B4). specialize (B4 eq_refl).
+        destruct B4 as (C1 & C2 & C3). rewrite C3; [lia|reflexivity|reflexivity|lia]. }
     split.
-    + apply good_set_sub; [exact G|]. unfold rec_good_b in *; cbn [m_mode m_start m_deliv m_eos m_eos_ok m_lost] in *.
-      apply andb_prop in GR as (GR1 & GR2). rewrite GR1. cbn [negb orb andb]. exact EOK.
+    + apply good_set_sub; [exact G|]. unfold rec_good_b. cbn [m_mode m_start m_deliv m_eos m_eos_ok m_lost].
+      rewrite ?MD. apply andb_prop in GR as (GR1 & GR2). rewrite GR1. cbn [negb orb andb]. rewrite ?MD. exact EOK.
     + right. apply (local_same e m s o r); try assumption; try reflexivity. fold l.
+      unfold sub_ok. splits; simp_rec; try assumption; try reflexivity; try lia. all: intros; try discriminate; try congruence.
+  - (* end of stream: all_values, the wanted value is not retained *)
+    destruct (m_eos r) eqn:EO.
+    { split.
+      + apply good_set_sub; [exact G|]. unfold with_pc, rec_good_b. cbn [m_mode m_start m_deliv m_eos m_eos_ok m_lost]. rewrite EO. exact GR.
+      + right. apply (local_same e m s o r); try assumption. fold l.
+        unfold sub_ok. splits; simp_rec; try assumption; try reflexivity; try lia. all: intros; try discriminate; try congruence. }
+    specialize (PO eq_refl). destruct PO as (ST & M0 & M12). rewrite PC in *. rewrite <- KK in *. rewrite MD in *. simp_rec.
+    rewrite T0 in *. specialize (M0 eq_refl). destruct M0 as (A1 & A2 & A3 & A4). specialize (A3 eq_refl K).
+    assert (LS : m_lost r = true).
+    { destruct (m_lost r) eqn:LS; [reflexivity|]. specialize (A4 eq_refl). destruct A4 as (D1 & D2 & D3 & D4). rewrite G3 in *. lia. }
+    split.
+    + apply good_set_sub; [exact G|]. unfold rec_good_b. cbn [m_mode m_start m_deliv m_eos m_eos_ok m_lost].
+      apply andb_prop in GR as (GR1 & GR2). rewrite ?MD. rewrite ?T0. rewrite GR1, LS. cbn [negb orb andb]. rewrite orb_true_r. reflexivity.
+    + right. apply (local_same e m s o r); try assumption; try reflexivity. fold l.
+      unfold sub_ok. splits; simp_rec; try assumption; try reflexivity; try lia. all: intros; try discriminate; try congruence.
+  - (* a value at the reader's own position *)
+    unfold pos_of. fold l.
+    destruct (HALF <=? r_pos l) eqn:HB; [lia|].
+    destruct (m_eos r) eqn:EO.
+    { split.
+      + apply good_set_sub; [exact G|]. unfold rec_good_b. cbn [m_mode m_start m_deliv m_eos m_eos_ok m_lost]. exact GR.
+      + right. apply (local_same e m s o r); try assumption; try reflexivity. fold l.
+        unfold sub_ok. splits; simp_rec; try assumption; try reflexivity; try lia. all: intros; try discriminate; try congruence. }
+    specialize (PO eq_refl). destruct PO as (ST & M0 & M12). rewrite PC in *. rewrite <- KK in *. rewrite MD in *. simp_rec.
+    rewrite K. rewrite G3 in *.
+    apply (qidx_val _ _ _ _ G5) in QI as (IR & VE). fold (npub m) in VE.
+    replace (npub m - 1 - (npub m + 1 - r_pos l - 1)) with (r_pos l - 1) in VE by lia.
+    split.
+    + apply good_add_bad. apply good_set_sub; [exact G|]. unfold rec_good_b. cbn [m_mode m_start m_deliv m_eos m_eos_ok m_lost].
+      cbn [negb orb]. rewrite andb_true_r.
+      apply andb_prop in GR as (GR1 & _).
+      destruct T as [T|T]; rewrite T in *; cbn [Z.eqb] in *.
+      * specialize (M0 eq_refl). destruct M0 as (A1 & A2 & A3 & A4). specialize (A3 eq_refl K).
+        rewrite contig_b_cons, zlen_cons. fold (npub m). rewrite GR1. lia.
+      * specialize (M12 ltac:(lia)). destruct M12 as (B1 & B2 & B3 & B4). specialize (B3 eq_refl K).
+        apply andb_prop in GR1 as (GR3 & GR4). rewrite incr_b_cons. cbn [forallb]. rewrite GR3, GR4.
+        unfold skipval_b. change (1 =? 2) with false. cbv iota. fold (npub m). lia.
+    + right. unfold add_bad. cbn [orb]. rewrite orb_false_r.
+      match goal with |- Inv e ?mm => replace mm with
+          (set_sub m s (mkSr true (s_mode o) PIdle (m_start r) (r_pos l) ((r_pos l, v, npub m) :: m_deliv r) false (m_eos_ok r) false (m_lost r)))
+          by (unfold set_sub; cbn; reflexivity) end.
+      apply (local_same e m s o r); try assumption; try reflexivity. fold l.
       unfold sub_ok. splits; simp_rec; try assumption; try reflexivity; try lia.
-      * rewrite AW. reflexivity.
-      * discriminate.
+      intros _. unfold pos_ok. simp_rec. rewrite zlen_cons. cbn [last_pos].
+      destruct T as [T|T]; rewrite T in *.
+      * specialize (M0 eq_refl). destruct M0 as (A1 & A2 & A3 & A4). specialize (A3 eq_refl K).
+        clear - ST A3 A4 IR G4 PL. intuition (try discriminate; try congruence; try lia).
+      * specialize (M12 ltac:(lia)). destruct M12 as (B1 & B2 & B3 & B4). specialize (B3 eq_refl K).
+        clear - ST B1 B3 B4 IR G4 PL. intuition (try discriminate; try congruence; try lia).
+  - (* a value at a later position: the reader is moved there *)
+    assert (PE : pos_of (set_reg (pq e) (s_h o) (with_pos l np)) (s_h o) = np).
+    { unfold pos_of, set_reg, with_regs. cbn [regs]. rewrite rget_set_same by exact HL. reflexivity. }
+    unfold with_pq. cbn [pq objs nawt palive]. rewrite PE.
+    destruct (HALF <=? np) eqn:HB; [apply R_viol; exact G|].
+    rewrite G3 in *.
+    apply (qidx_val _ _ _ _ G5) in QI as (IR & VE). fold (npub m) in VE.
+    assert (NPV : v = nthz (m_log m) (np - 1)) by (rewrite VE; f_equal; lia).
+    assert (AK : NoDup (flat_map awt_of (set_nth (regs (pq e)) (s_h o) (with_pos l np))) /\
+                 (forall a, In a (flat_map awt_of (set_nth (regs (pq e)) (s_h o) (with_pos l np))) -> a < nawt e)).
+    { apply awt_same_keep; [exact HL|apply (i_awt _ _ I)|apply (i_awt _ _ I)|right; reflexivity]. }
+    assert (NPR : r_pos l <= np /\ 1 <= np <= npub m /\ (s_mode o = 2 -> np = npub m) /\ s_mode o <> 0).
+    { destruct TI as [(T & C & II)|(T & II)]; rewrite T; lia. }
+    destruct NPR as (NP1 & NP2 & NP3 & NP4).
+    destruct (m_eos r) eqn:EO.
+    { split.
+      + apply good_set_sub; [exact G|]. unfold rec_good_b. cbn [m_mode m_start m_deliv m_eos m_eos_ok m_lost]. exact GR.
+      + right. apply (local_update e m s o r); try assumption; try reflexivity.
+        unfold sub_ok. splits; simp_rec; try assumption; try reflexivity; try lia. all: intros; try discriminate; try congruence. }
+    specialize (PO eq_refl). destruct PO as (ST & M0 & M12). rewrite PC in *. rewrite <- KK in *. rewrite MD in *. simp_rec.
+    rewrite K.
+    specialize (M12 NP4). destruct M12 as (B1 & B2 & B3 & B4). specialize (B3 eq_refl K).
+    split.
+    + apply good_add_bad. apply good_set_sub; [exact G|]. unfold rec_good_b. cbn [m_mode m_start m_deliv m_eos m_eos_ok m_lost].
+      cbn [negb orb]. rewrite andb_true_r.
+      apply andb_prop in GR as (GR1 & _).
+      destruct (s_mode o =? 0) eqn:M0E; [lia|].
+      apply andb_prop in GR1 as (GR3 & GR4). rewrite incr_b_cons. cbn [forallb]. rewrite GR3, GR4.
+      unfold skipval_b. fold (npub m). destruct (s_mode o =? 2) eqn:M2; [specialize (NP3 ltac:(lia))|]; lia.
+    + right. unfold add_bad. cbn [orb]. rewrite orb_false_r.
+      match goal with |- Inv _ ?mm => replace mm with
+          (set_sub m s (mkSr true (s_mode o) PIdle (m_start r) np ((np, v, npub m) :: m_deliv r) false (m_eos_ok r) false (m_lost r)))
+          by (unfold set_sub; cbn; reflexivity) end.
+      apply (local_update e m s o r); try assumption; try reflexivity.
+      unfold sub_ok. splits; simp_rec; try assumption; try reflexivity; try lia.
+      intros _. unfold pos_ok. simp_rec. cbn [last_pos].
+      clear - ST B1 B3 B4 NP1 NP2 NP4 G4. intuition (try discriminate; try congruence; try lia).
 Qed.
